@@ -124,6 +124,14 @@ func TestWorker(t *testing.T) {
 		os.WriteFile(job.Out, js, 0o644)
 	}()
 	start := time.Now()
+	if cp := os.Getenv("VERIF_COVER"); cp != "" {
+		simrt.CoverEnable()
+		defer func() {
+			js, _ := json.Marshal(simrt.CoverSnapshot())
+			os.MkdirAll(cp, 0o755)
+			os.WriteFile(fmt.Sprintf("%s/%s-%d-%d.json", cp, job.Prop, os.Getpid(), time.Now().UnixNano()), js, 0o644)
+		}()
+	}
 	switch job.Mode {
 	case "replay":
 		workerReplay(t, &job, known, out)
